@@ -94,8 +94,15 @@ def enumerate_mutants(src: str, ranges):
     for n in ast.walk(tree):
         for c in ast.iter_child_nodes(n):
             parents[id(c)] = n
+    def in_logging(n):
+        while n is not None:
+            if isinstance(n, ast.Call) and ast.unparse(n.func).startswith(("logger.", "log.", "logging.", "warnings.")):
+                return True
+            n = parents.get(id(n))
+        return False
+
     for node in ast.walk(tree):
-        if not hasattr(node, "lineno") or not in_ranges(node, ranges):
+        if not hasattr(node, "lineno") or not in_ranges(node, ranges) or in_logging(node):
             continue
         span = (node.lineno, node.col_offset, node.end_lineno, node.end_col_offset)
 
